@@ -198,6 +198,9 @@ func (root *Root) resolve(
 			var err error
 			if result, err = co.CoerceOut(obj); err != nil {
 				ea = append(ea, resWarn(field.line, field.col, "%s", err))
+				// The value could not be converted so it must not end up in
+				// the response as is.
+				result = nil
 			}
 		}
 	}
